@@ -398,7 +398,9 @@ def valid_squitters(rng, n):
 # ----------------------------------------------------------------------------------------- C02
 DECOR = [b'*', b'@', b';', b' ', b'\t', b'\r', b'g', b'G', b'x', b':', b'-', b'\xc3\xa9', b'\xef\xbc\x91', b'\x00'] + \
         [chr(0x100 + b).encode() for b in b'09AFaf18Cc'] + [chr(0x400 + b).encode() for b in b'0Aa'] + \
-        ['\u0661'.encode(), '\u06f5'.encode(), '\uff21'.encode(), '\u2160'.encode(), '\U0001d7d8'.encode()]
+        ['\u0661'.encode(), '\u06f5'.encode(), '\uff21'.encode(), '\u2160'.encode(), '\U0001d7d8'.encode()] + \
+        [b'x', b'X', b'h', b'#', b'$', b'\\x', b'0x'[1:], b'&#x', b'U+'] + \
+        [t.encode() for t in ('\ufb00', '\ufb01', '\ufb02', '\ufb03', '\ufb04', '\u1e9a', '\u00df', '\u0149', '\u0130', '\u01c5', '\u1f88', '\ufb05', '\u2126', '\u212a')]
 
 
 def decorate(rng, digits, k):
@@ -443,6 +445,18 @@ def c02(tier):
         if rng.random() < 0.25:
             v = v[:rng.randrange(len(v) + 1)] + rng.choice('0123456789abcdefABCDEF') * rng.randrange(1, 3) + v[rng.randrange(len(v)):]
         lines.append(decorate(rng, v, rng.randrange(0, 4)))
+    # every decoration token at every position of two frames (a DF0 reply starting with the digit 0, an extended squitter): the digits
+    # are what they were, whatever stands between them - in particular no token is taken for digits or makes digits disappear
+    zero_first = short(0, enc_alt13(9000), 0x2E197B)
+    for v in (valid[0], zero_first if zero_first[0] == '0' else valid[1]):
+        for tok in DECOR:
+            for pos in range(len(v) + 1):
+                if tier == 'thorough' or (pos + len(tok)) % 3 == 0 or pos < 2:
+                    lines.append(list(v[:pos].encode()) + list(tok) + list(v[pos:].encode()))
+    # a hexadecimal prefix is not a decoration: '0x' + frame has one digit too many
+    for v in valid:
+        lines.append(list(('0x' + v).encode()))
+        lines.append(list(('0X' + v + ';').encode()))
     # classic receiver formats
     lines.append(list(('*' + valid[0] + ';').encode()))
     lines.append(list(('@' + '%012X' % rng.getrandbits(48) + valid[0] + ';\r').encode()))
@@ -538,8 +552,19 @@ def c03(tier):
             seq += nine_frames(rng.choice(others), rng)
             rng.shuffle(seq)
             for l in seq:
-                g.append(run1(l, direct=True))
+                # (letter case and receiver framing are decoration: the address is the same)
+                g.append(run1(dialect(rng, l) if k % 3 == 1 else (l.lower() if k % 3 == 2 else l), direct=True))
             groups.append(g)
+    # a large table: thousands of aircraft heard once each, in one run; everybody who was there before is still there (nothing is
+    # overdue), only the new addresses are added
+    nbig = 4500 if tier == 'quick' else 20000
+    for opts in (([],) if tier == 'quick' else ([], ['-U'])):
+        xs_ = [0x4b4001, 0x4b4002]
+        g = [reset(opts + ['-d', '100000'])] + [run1(df11(5, x)) for x in xs_] + [run1(short(5, enc_squawk(1, 2, 3, 4), xs_[0]))]
+        newcomers = rng.sample(range(0x500000, 0x5fffff), nbig)
+        g.append(runn([df11(rng.getrandbits(3), b) for b in newcomers]))
+        g.append(run1(df11(5, xs_[1])))
+        groups.append(g)
     # payloads that NAME another aircraft of the table: the intruder address of an ACAS resolution advisory (BDS 3,0, TTI = 1, TID),
     # the address spelled in the MB / ME field of other formats.  The row that changes is still the sender's.
     for opts in OPTSETS:
@@ -941,6 +966,14 @@ def c01(tier):
                            'lines': lines, 'code': r['code'], 'timeout': r['code'] == -999, 'nsnaps': len(snaps),
                            'stderr': r['err'][-300:].decode('utf-8', 'replace'),
                            'last': [] if last is None else [{'rows': [cli.cps(x) for x in last['rows']]}]})
+    # sources that open but cannot be read (a directory: every read fails), an empty file, a file without a single line end
+    for prof in ('dev', 'release'):
+        binary = vlib.build_cli(prof)
+        for src, data in ((vlib.SPEC, None), (None, b''), (None, b'8D4840D6202CC371C32CE0576098'), ('/dev/null', None)):
+            r = cli.run_cli(binary, ['--update=-1'], data=data, source=src, timeout=20)
+            events.append({'e': 'cli', 'i': len(events) + 1, 'opts': ['--update=-1', '-s', str(src)], 'profile': prof, 'quiet': True,
+                           'args': {'f': [], 'd': 60, 'u': -1}, 'lines': [], 'code': r['code'], 'timeout': r['code'] == -999, 'nsnaps': 0,
+                           'stderr': r['err'][-300:].decode('utf-8', 'replace'), 'last': []})
     wd = vlib.workdir()
     tr = os.path.join(wd, 'cli.trace.ndjson')
     vlib.write_ndjson(tr, events)
@@ -1082,6 +1115,16 @@ def c10(tier):
             for mb in mbs:
                 g.append(run1(long_(20, enc_alt13(32000), mb, a)))
             groups.append(g)
+    # the advertised registers stay advertised when a later DF11 reports another capability value (ground / airborne: CA 4 <-> 5)
+    for opts in OPTSETS:
+        for ca1, ca2 in ((4, 5), (5, 4), (5, 7), (6, 5)):
+            a = 0x3cd000 + 16 * OPTSETS.index(opts) + ca1 + 4 * (ca2 % 4)
+            gs_ = rng.randint(80, 240)
+            g = [reset(opts), run1(df11(ca1, a)), run1(long_(20, enc_alt13(31000), mb17(1, 1, 1, 1), a)), run1(df11(ca2, a)),
+                 run1(long_(20, enc_alt13(31000), mb40(2000, 2001, 2132), a)),
+                 run1(long_(21, enc_squawk(1, 2, 3, 4), mb50(rng.randint(-100, 100) or 1, rng.randrange(1, 1024), gs_, rng.randint(-100, 100) or 1, gs_ + 5), a)),
+                 run1(long_(20, enc_alt13(31000), mb60(rng.randrange(1, 2048), rng.randint(1, 500), rng.randint(1, 250), 20, 21), a))]
+            groups.append(g)
     # the threat flag follows the latest BDS 3,0 reply: set, cleared, set again (gate open); untouched while the gate is closed
     for opts in OPTSETS:
         for ca in (5, 0):
@@ -1198,6 +1241,12 @@ def c08(tier):
             d3 = delays[(k // 8) % len(delays)]
             if d3:
                 g.append(tick(d3))
+            g.append(run1(mk(p2, 1 - first_odd)))
+            g.append(run1(mk(p3, first_odd)))
+        if k % 8 == 3:
+            # the wall clock steps BACK between two halves (a stored half is stamped later than the frame now arriving): the window is
+            # about the distance in time, whichever way round
+            g.append(tick(-rng.choice([11000, 60000, 3400000])))
             g.append(run1(mk(p2, 1 - first_odd)))
             g.append(run1(mk(p3, first_odd)))
         if k % 4 == 2:
@@ -2133,10 +2182,12 @@ def c18(tier):
         seqs = [('refuse',), ('close',), ('frames', 'partial'), ('junk', 'refuse'), ('partial', 'frames'), ('frames', 'close', 'junk'),
                 ('refuse', 'refuse'), ('partial', 'partial', 'junk'), ('partialfin',), ('frames', 'partialfin', 'refuse'), ('partialfin', 'partialfin'),
                 ('close', 'close', 'partialfin'),       # (the three kinds of partial line rotate with the connection number)
-                ('long', 'refuse'), ('long', 'close')]      # a connection that outlives delete_after (-d 8), then an outage
+                ('long', 'refuse'), ('long', 'close'),      # a connection that outlives delete_after (-d 8), then an outage
+                ('frames',) + ('refuse',) * 7]              # an outage of half a minute: the decoder never gives up
     else:
         seqs = [s for n in (1, 2, 3) for s in itertools.product(tcp.FAULTS, repeat=n)]
-        seqs += [('long', 'refuse'), ('long', 'close'), ('long', 'refuse', 'refuse'), ('frames', 'long', 'partial'), ('long', 'junk', 'refuse')]
+        seqs += [('long', 'refuse'), ('long', 'close'), ('long', 'refuse', 'refuse'), ('frames', 'long', 'partial'), ('long', 'junk', 'refuse'),
+                 ('frames',) + ('refuse',) * 7, ('refuse',) * 9, ('junk',) + ('refuse',) * 6 + ('close',)]
     events = []
     with cf.ThreadPoolExecutor(max_workers=16) as ex:
         futs = [ex.submit(tcp.run_scenario, binary, s, i + 1) for i, s in enumerate(seqs)]
@@ -2151,7 +2202,7 @@ def c18(tier):
                 'script element and the healthy one, gap after n refusals within [5n-0.5, 5n+4] s, prompt reconnect (< 4.5 s) after close/reset, '
                 'process alive, last refresh lists exactly the aircraft whose complete frames were delivered on any connection (partial lines and junk '
                 'contribute nothing and break nothing). Non-trivial = sequence with at least one fault; distinct by fault sequence' %
-                ('14 fault sequences of length 1..3 (two with a connection that outlives delete_after)' if tier == 'quick' else 'all 258 fault sequences of length <= 3 over 6 fault kinds and 5 with a connection that outlives delete_after'))
+                ('15 fault sequences (two with a connection that outlives delete_after, one with seven refusals in a row)' if tier == 'quick' else 'all 258 fault sequences of length <= 3 over 6 fault kinds and 5 with a connection that outlives delete_after'))
     vlib.nt_floor(rep, 5)
     return rep
 
@@ -2350,6 +2401,10 @@ def junk_lines(rng):
     # bytes 0x80-0xFF whose low seven bits spell a valid record (whole line, one digit, the digits of a time stamp)
     J += [[c | 0x80 for c in good.encode()], list(good[:-1].encode()) + [ord(good[-1]) | 0x80], [c | 0x80 for c in rec2.encode()],
           [ord('@') | 0x80] + [c | 0x80 for c in ('%012X' % 5).encode()] + list(rec2.encode()), list(rec2[:5].encode()) + [ord(rec2[5]) | 0x80] + list(rec2[6:].encode())]
+    # text that means something to some program (telnet banners as in rec/sbs2.txt, end-of-input words and characters)
+    J += [list(t.encode()) for t in ('Connection closed by foreign host.', 'Connection closed', 'Trying 127.0.0.1...', 'Connected to localhost.',
+                                      "Escape character is '^]'.", 'EOF', 'quit', 'exit', 'END', 'bye', '.', '#', '//', '--', 'STOP', 'null', 'None')]
+    J += [[4], [26], [27], [3], [0x1c], [12]]
     J += [list((good + ';      <- dropped by the feeder, bad checksum').encode()), list((rec2 + '\r' + ' ' * 70 + rec2).encode()),
           list((good + '\t' * 50 + '7' * 70000).encode()), list(('@%012X' % 77 + rec2 + ';' + '-' * 40 + 'c').encode())]
     return J
@@ -2520,7 +2575,8 @@ def c19(tier):
             pool = []
             for a in [0x4b1900 + rng.getrandbits(8) for _ in range(2)]:
                 pool += other_format_frames(a, rng)
-            lines = [rng.choice(pool) for _ in range(rng.randrange(13, 30))]
+            # (runs shorter than the sweep distance too: whether the overdue row is still there after 1..10 frames must not depend on the option)
+            lines = [rng.choice(pool) for _ in range(rng.choice([1, 2, 3, 5, 10, 11, 12, 13, 20, 30]))]
             tag = {'pair': 'c19', 'opt': name + '.sweep'}
             old = df17(5, a_old, me_ident(4, 1, callsign_codes('OLDROW')))
             groups.append([{'c': 'reset', 'opts': ['-i', 'Q', '-d', '1'] + base, 'slot': 0},
@@ -2548,6 +2604,9 @@ def c19(tier):
         pool = []
         for a in acs:
             pool += valid_value_frames(a, rng)
+            # airspeed / heading velocity squitters (TC19 subtypes 3 and 4) carry no ground speed or track: they leave both alone
+            pool += [df17(5, a, me_velocity(rng.choice([3, 4]), rng.getrandbits(1), rng.randint(1, 1023), rng.getrandbits(1), rng.randint(1, 1023),
+                                            rng.getrandbits(1), rng.randint(1, 511))) for _ in range(2)]
         R = ['-R'] if h % 4 == 0 else []
         g = [reset(R, slot=0), reset(R + ['-U'], slot=1)]
         tag = {'pair': 'c19u', 'opt': 'U'}
